@@ -68,4 +68,17 @@ struct r05_5_decoder {
     int peek_type() { read_to_buffer(); if (m_p != m_peek_pos) { m_peek_pos = m_p; m_peek_type = m_p[0]; } return m_peek_type; }
 };
 
+// R18.7 member-wise equality: a comparison used to identify two values that leaves one member out (b is compared twice)
+struct r18_6_params { int a; int b; int c; };
+template<typename S, typename T> static bool r18_6_same(const S& x, const S& y, T S::*m) { return x.*m == y.*m; }
+bool r18_6_same_params(const r18_6_params& x, const r18_6_params& y)
+{
+    return r18_6_same(x, y, &r18_6_params::a) && r18_6_same(x, y, &r18_6_params::b) && r18_6_same(x, y, &r18_6_params::b);
+}
+// ... (negative control) and one that compares all of them
+bool r18_6_same_params_all(const r18_6_params& x, const r18_6_params& y)
+{
+    return x.a == y.a && x.b == y.b && x.c == y.c;
+}
+
 }
